@@ -135,3 +135,60 @@ Proof.
     destruct (concat (map f_payload (f0 :: rest))) as [|a [|b r]]; try reflexivity;
     repeat match goal with |- context [if ?b then _ else _] => destruct b end; reflexivity.
 Qed.
+
+(* ---------- control frames are never compressed ---------- *)
+Lemma send_frame_trace c op r p :
+  let c' := fst (send_frame c op r p) in
+  k_tr c' = k_tr c \/ k_tr c' = TWrite (build op r (next_key c) p) :: k_tr c \/
+  k_tr c' = TWriteFail (build op r (next_key c) p) :: k_tr c.
+Proof.
+  cbv zeta. unfold send_frame, pop_key, next_key. destruct (k_keys c) as [|k ks] eqn:Ek.
+  - destruct (write_cases c (build op r [x00; x00; x00; x00] p) (op =? OP_CLOSE)) as [(x & E & _)|[(c2 & E & Ht & _)|(c2 & E & Ht)]];
+      rewrite E; cbn [fst]; auto.
+  - set (c1 := c <| k_keys := ks |>).
+    destruct (write_cases c1 (build op r k p) (op =? OP_CLOSE)) as [(x & E & _)|[(c2 & E & Ht & _)|(c2 & E & Ht)]];
+      rewrite E; cbn [fst]; auto.
+Qed.
+
+Lemma send_frame_zlib c op r p :
+  k_zout (fst (send_frame c op r p)) = k_zout c /\ k_ctape (fst (send_frame c op r p)) = k_ctape c.
+Proof.
+  set (Q := fun a b : conn => k_zout b = k_zout a /\ k_ctape b = k_ctape a).
+  assert (Qr : forall a, Q a a) by (intros; split; reflexivity).
+  assert (Qt : forall a b c1, Q a b -> Q b c1 -> Q a c1) by (intros a b c1 (A1 & A2) (B1 & B2); split; congruence).
+  change (Q c (fst (send_frame c op r p))).
+  apply send_from_emit with (ok_item := fun _ => True); auto; try (intros; split; reflexivity).
+Qed.
+
+Definition control_call (a : call) : option (N * bytes) :=
+  match a with
+  | CSendPing p => Some (OP_PING, p)
+  | CSendPong p => Some (OP_PONG, p)
+  | CClose code reason => Some (OP_CLOSE, close_payload code reason)
+  | _ => None
+  end.
+
+(* send_ping, send_pong and close() -- with or without a negotiated permessage-deflate, whatever its parameters -- never go
+   through the compressor: the deflate context and its oracle tape are untouched, and what is written (if anything) is the
+   frame built with RSV1 clear from the payload as given *)
+Theorem control_frames_never_compressed c a op p :
+  control_call a = Some (op, p) ->
+  let c' := fst (api_call c a) in
+  k_zout c' = k_zout c /\ k_ctape c' = k_ctape c /\
+  (k_tr c' = k_tr c \/ k_tr c' = TWrite (build op false (next_key c) p) :: k_tr c \/
+   k_tr c' = TWriteFail (build op false (next_key c) p) :: k_tr c).
+Proof.
+  intros Ha. cbv zeta. destruct a as [? ?|? ?|q|q|code reason]; try discriminate; cbn [control_call] in Ha; inversion Ha; subst; cbn [api_call].
+  - destruct (125 <? blen p); [cbn; auto|].
+    destruct (send_frame_zlib c OP_PING false p) as [Z1 Z2]. split; [exact Z1|]. split; [exact Z2|]. apply send_frame_trace.
+  - destruct (125 <? blen p); [cbn; auto|].
+    destruct (send_frame_zlib c OP_PONG false p) as [Z1 Z2]. split; [exact Z1|]. split; [exact Z2|]. apply send_frame_trace.
+  - unfold ws_close. destruct (k_closed c); [cbn; auto|]. destruct (k_closing c); [cbn; auto|].
+    destruct (125 <? blen (close_payload code reason)); [cbn; auto|].
+    destruct (send_frame_zlib c OP_CLOSE false (close_payload code reason)) as [Z1 Z2].
+    pose proof (send_frame_trace c OP_CLOSE false (close_payload code reason)) as T. cbv zeta in T.
+    destruct (send_frame c OP_CLOSE false (close_payload code reason)) as [c1 r]. cbn [fst] in *. auto.
+Qed.
+
+Lemma build_first_byte op key p : op < 16 -> hd x00 (build op false key p) = n2b (128 + op).
+Proof. intros H. unfold build, byte0. cbn [hd]. f_equal; unfold bit; lia. Qed.
